@@ -42,7 +42,7 @@ def hincrby : Body := fun _ args cis =>
     let c := ciAt cis k
     let h := hashOf c
     match Conv.int ((h.lookup f).getD (strBytes "0")) with
-    | .error e => .error e
+    | .error _ => .error Msgs.HASH_NOT_INT_MSG
     | .ok cur =>
       let n := cur + amount
       match Conv.encodeInt n with
@@ -56,7 +56,7 @@ def hincrbyfloat : Body := fun ctx args cis =>
     let c := ciAt cis k
     let h := hashOf c
     match Conv.float ((h.lookup f).getD (strBytes "0")) with
-    | .error e => .error e
+    | .error _ => .error Msgs.HASH_NOT_FLOAT_MSG
     | .ok cur =>
       match Conv.float amount with
       | .error e => .error e
